@@ -174,6 +174,22 @@ def gen_minimal(ck, rng, cases):
                 g.append(feature(kind, g, tb=0, access="RW", **{ref: 2}))
                 ops = [("bs", 2, 0), ("bs", 2, 1)] if ctl["kind"] == "Boolean" else [("s", 2, 0), ("s", 2, 1), ("s", 2, 2)]
                 add(cases, g, ops, "minimal graphs")
+    # formula variables standing for a sub-property of their node (X.Min, X.Max, X.Inc, X.Value, X.Enum.E): the node
+    # must be readable whatever the accessor; sources in every access situation, controls flipped
+    for kind in ("SwissKnife", "IntSwissKnife", "Converter", "IntConverter"):
+        for acc in A.ACCESSORS:
+            srcs = [A.node("IntReg", access="WO"), A.node("IntReg", access="RW", imposed="WO"),
+                    A.node("Integer", value=("slot", 3), imposed="WO"), A.node("Integer", value=("slot", 3), avail=0),
+                    A.node("Integer", value=("slot", 3), impl=0), A.node("IntReg", access="RW", avail=0),
+                    A.node("Float", value=("slot", 2), imposed="WO"), A.node("Float", value=("slot", 2), impl=0),
+                    A.node("MaskedIntReg", access="WO"), A.node("Enumeration", value=("slot", 0), imposed="WO"),
+                    A.node("Enumeration", value=("slot", 0), avail=0), A.node("Boolean", value=("slot", 1), impl=0),
+                    A.node("Integer", value=("slot", 3)), A.node("IntReg", access="RO")]
+            for src in srcs:
+                g = [A.node("Integer", value=("slot", 1)), A.node("IntReg", access="RW", init=5), dict(src)]
+                for vs, accs in (([2], [acc]), ([1, 2], ["", acc]), ([2, 1], [acc, ".Max"])):
+                    g.append(A.node(kind, pvalue=1, vars=vs, accs=accs))
+                add(cases, g, [("s", 0, 0), ("s", 0, 1), ("s", 0, 2), ("s", 0, 1)], "minimal graphs")
     # one unreadable / unwritable source under each referrer
     for src in (A.node("IntReg", access="WO"), A.node("IntReg", access="RO"), A.node("Integer", value=("slot", 1), imposed="RO"),
                 A.node("Integer", value=("slot", 1), imposed="WO"), A.node("Enumeration", value=("slot", 0)),
@@ -262,14 +278,17 @@ def gen_sources(ck, rng, cases):
                 g.append(A.node("Command", value=("node", t)))
                 g.append(A.node("Enumeration", value=("node", t)))
                 g.append(A.node("String", value=("node", t)))
-                g.append(A.node("IntConverter", pvalue=t, vars=[6]))
-                g.append(A.node("Converter", pvalue=6, vars=[7, t]))
-                g.append(A.node("IntConverter", pvalue=7, vars=[t, 6, t]))
-                g.append(A.node("IntSwissKnife", vars=[t]))
-                g.append(A.node("SwissKnife", vars=[6, t]))
+                ac = lambda k: [rng.choice(A.ACCESSORS) for _ in range(k)]
+                g.append(A.node("IntConverter", pvalue=t, vars=[6], accs=ac(1)))
+                g.append(A.node("Converter", pvalue=6, vars=[7, t], accs=ac(2)))
+                g.append(A.node("IntConverter", pvalue=7, vars=[t, 6, t], accs=ac(3)))
+                g.append(A.node("IntSwissKnife", vars=[t], accs=[rng.choice(A.ACCESSORS[1:])]))
+                g.append(A.node("SwissKnife", vars=[6, t], accs=ac(2)))
+                g.append(A.node("IntSwissKnife", vars=[t, 7], accs=[".Max", ".Min"]))
+                g.append(A.node("Converter", pvalue=7, vars=[t], accs=[".Inc"]))
                 g.append(A.node("SwissKnife", vars=[]))
                 g.append(A.node("Integer", value=("pvalue", t + 1, [])))      # depth 2
-                g.append(A.node("Converter", pvalue=len(g) - 1, vars=[t + 12]))   # depth 3 over a converter
+                g.append(A.node("Converter", pvalue=len(g) - 1, vars=[t + 13], accs=[".Min"]))   # depth 3 over a converter
                 ops = [("s", 0, 0), ("s", 1, 0), ("s", 0, 1), ("s", 1, 1), ("s", 0, 5), ("s", 1, 2)]
                 if quick:
                     ops = ops[:4]
@@ -330,12 +349,15 @@ def gen_random(ck, rng, cases, count):
                 kw["value"] = ("node", m) if m is not None else ("slot", 0)
             elif kind in ("IntConverter", "Converter", "IntSwissKnife", "SwissKnife"):
                 kw["vars"] = [x for x in (pick(A.VARKINDS) for _ in range(rng.below(4))) if x is not None]
+                if rng.chance(2, 3):
+                    kw["accs"] = [rng.choice(A.ACCESSORS) for _ in kw["vars"]]
                 if kind in ("IntConverter", "Converter"):
                     p = pick(A.VARKINDS)
                     if p is None:
                         kind = "Integer"
                         kw["value"] = ("slot", 1)
                         kw.pop("vars")
+                        kw.pop("accs", None)
                     else:
                         kw["pvalue"] = p
             g.append(A.node(kind, **kw))
